@@ -310,6 +310,7 @@ def run(prop, tier, seed):
                               'C20': 'every corpus document: parse twice equal, deepcopy equal, token eq/hash, one token text change / child add-remove / comment ownership move makes it unequal'}.get(prop, prop)
                  + '; distinct by (document, variant, index); non-trivial = document has at least one directive', bound='corpus of drivers/corpus.py')
     def do(key, fn, *args):
+        if not rep.mine(key): return
         try:
             msg = fn(*args)
         except Exception:
